@@ -7,7 +7,7 @@
 //! rest, and judged by the real `download_and_verify_digests` -> `verify_cardano_database` ->
 //! `compute_cardano_database_message` -> `match_message`. The oracle is an own model:
 //! file name -> sha256 of the certified content.
-use std::collections::{BTreeMap, BTreeSet};
+use std::collections::BTreeMap;
 use std::path::{Path, PathBuf};
 
 use mithril_cardano_node_internal_database::digesters::{CardanoImmutableDigester, ImmutableDigester};
@@ -34,7 +34,6 @@ use crate::common::{self, RangeCfg};
 use crate::downloader::StepPlan;
 
 pub const PROPERTY: &str = "C10";
-pub const F_SWAP: &str = "C10-content-swap";
 
 // ---------------------------------------------------------------------------------------------
 // scenario description
@@ -636,37 +635,21 @@ impl<'a> World<'a> {
         list_ok && range.bounds(self.cfg.beacon()).is_some() && self.directory_objections(&self.dir, range, allow_missing).is_empty()
     }
 
-    /// Counterfactual for `C10-content-swap`: put the certified content back under every name in
-    /// the range that currently holds *another certified file's* content, and drop foreign
-    /// immutable-looking files holding certified content. Everything else stays damaged.
-    fn neutralise_content_swaps(&self, range: &RangeCfg) -> Dir {
-        let mut dir = self.dir.clone();
-        let Some((lo, hi)) = range.bounds(self.cfg.beacon()) else { return dir };
-        let certified: BTreeSet<&String> = self.model.values().collect();
-        let names: Vec<String> = dir.keys().cloned().collect();
-        for name in names {
-            let Some(k) = immutable_like_number(&name) else { continue };
-            if k < lo || k > hi {
-                continue;
-            }
-            let sha = common::sha256_hex(&dir[&name]);
-            match self.model.get(&name) {
-                Some(want) if *want != sha && certified.contains(&sha) => {
-                    dir.insert(name.clone(), self.honest[&name].clone());
-                }
-                None if certified.contains(&sha) => {
-                    dir.remove(&name);
-                }
-                _ => {}
-            }
-        }
-        dir
-    }
-
     pub fn scratch_path(&self) -> &Path {
         self.scratch.path()
     }
 }
+
+/// A known, unrepaired defect: its id in known-findings.json and how to neutralise its trigger
+/// in the directory under verification.
+pub struct KnownTrigger {
+    pub id: &'static str,
+    pub neutralise: fn(&World, &RangeCfg) -> BTreeMap<String, Vec<u8>>,
+}
+
+/// Empty: the defect this engine found (content accepted under the wrong name, `C10-content-swap`)
+/// was repaired in /repo (status `fixed`, which suppresses nothing). The machinery stays.
+pub const KNOWN_TRIGGERS: &[KnownTrigger] = &[];
 
 /// A file name that passes for an immutable file: digits (an optional sign is what integer
 /// parsers accept), one dot, one of the three extensions. Returns its number.
@@ -736,17 +719,18 @@ pub fn run_trace(w: &mut World, trace: &[Event]) -> TraceOutcome {
                     }
                 }
                 for (clause, detail) in objections {
-                    // counterfactual attribution
+                    // counterfactual attribution: the violation belongs to a known finding only
+                    // if it is gone once that finding's trigger is neutralised in the directory
                     let mut finding = None;
-                    {
-                        let neutral = w.neutralise_content_swaps(range);
+                    for t in KNOWN_TRIGGERS {
+                        let neutral = (t.neutralise)(w, range);
                         if neutral != w.dir {
                             let saved = std::mem::replace(&mut w.dir, neutral);
                             let (v2, o2) = w.verify(range, *allow_missing);
                             w.dir = saved;
-                            let still = v2 == Verdict::Accepted && o2.iter().any(|(c, _)| *c == clause);
-                            if !still {
-                                finding = Some(F_SWAP);
+                            if !(v2 == Verdict::Accepted && o2.iter().any(|(c, _)| *c == clause)) {
+                                finding = Some(t.id);
+                                break;
                             }
                         }
                     }
@@ -1034,7 +1018,7 @@ pub fn plan(tier: Tier, real: Vec<String>, stub: Vec<String>) -> Option<Plan> {
     // sampled runs: one scenario each in the quick tier, 10 each in the thorough tier
     let sampled = match tier {
         Tier::Quick => 6_000,
-        Tier::Thorough => 250_000,
+        Tier::Thorough => 120_000,
     };
     Some(Plan {
         runs: e + sampled,
@@ -1237,13 +1221,22 @@ pub fn run(ctx: &sim_core::RunCtx) -> RunReport {
         report.sample = Some(json!({"run": ctx.run, "cases": sample_cases}));
     }
     if !all.is_empty() {
+        // the runner replays the document and expects the clause of the first violation it
+        // reports for this run: take a case of that clause (unattributed ones first)
         let known = sim_core::findings::Findings::load();
-        let pick = all
+        let first = report
+            .violations
             .iter()
-            .find(|(_, _, v)| v.finding.is_none())
-            .or_else(|| all.iter().find(|(_, _, v)| !v.finding.is_some_and(|id| known.is_known(PROPERTY, id))));
+            .find(|v| !v.finding.as_deref().is_some_and(|id| known.is_known(PROPERTY, id)))
+            .map(|v| (v.clause.clone(), v.finding.clone()));
+        let pick = first.and_then(|(clause, finding)| {
+            all.iter().find(|(_, _, v)| v.clause == clause && v.finding.map(str::to_string) == finding)
+        });
+        static MINIMISED: std::sync::atomic::AtomicU32 = std::sync::atomic::AtomicU32::new(0);
+        let budget_left = MINIMISED.fetch_add(1, std::sync::atomic::Ordering::Relaxed) < 4;
         report.replay = Some(match pick {
-            Some((cfg, trace, v)) => replay_doc(cfg, &minimise(node, cfg, trace, &v.clause)),
+            Some((cfg, trace, v)) if budget_left => replay_doc(cfg, &minimise(node, cfg, trace, &v.clause)),
+            Some((cfg, trace, _)) => replay_doc(cfg, trace),
             None => replay_doc(&all[0].0, &all[0].1),
         });
     }
